@@ -11,6 +11,9 @@ Tie (every run, real object code of the current tree, harness/c/c10_harness.c):
   M  read_session_map on real files; record_proc_maps (libmcount) on a fake /proc/self/maps
   D  whole data directories (task.txt + sid-*.map + *.sym): read_task_txt_file, then
      task_find_sym_addr for probes (tid, time, addr) - sessions by time, fork/exec, dlopen, ASLR
+  R  real recordings of programs that dlopen() an instrumented library whose constructor / C++ global initialiser
+     call traced functions and dlopen() a second library: every record judged against dladdr + nm ground truth,
+     DLOP time <= record time for every record inside the library (record-side ordering invariant)
   E  end to end: `uftrace replay` on a synthetic directory with two sessions and a real
      record/replay of a PIE program with a shared library and dlopen (also --with-syms)
 Every answer of the implementation is compared with the model inside Coq (mismatch) and judged
@@ -1318,6 +1321,8 @@ def meta(ctx):
         "harnesses harness/c/c10_harness.c (#includes utils/symbol.c and utils/session.c of the current tree) and "
         "harness/c/c10_maps.c (libmcount objects, fopen of /proc/self/maps redirected) + props/c10.py",
         "demangle() is the identity on names that are not mangled (C13); generated names are of that kind",
+        "model of the libmcount dlopen() wrapper (Model.v run_act): call order taken from the C text (wrap_dlopen_clock_first), "
+        "the rest tied by real recordings (part R); ground truth of part R = dladdr bases logged by the program + nm -S",
     ]
     ctx.assume = [
         "symbol tables are address-sorted with pairwise disjoint ranges for the completeness direction (soundness holds for "
